@@ -177,6 +177,17 @@ pub fn watchdog_start(limit_ms: u64) {
         .expect("spawn watchdog");
 }
 
+/// CPU time consumed by the calling thread so far, in microseconds.
+pub fn thread_cpu_us() -> u64 {
+    let mut ts = libc::timespec { tv_sec: 0, tv_nsec: 0 };
+    // SAFETY: plain clock_gettime into a local timespec
+    let rc = unsafe { libc::clock_gettime(libc::CLOCK_THREAD_CPUTIME_ID, &mut ts) };
+    if rc != 0 {
+        return 0;
+    }
+    (ts.tv_sec as u64) * 1_000_000 + (ts.tv_nsec as u64) / 1000
+}
+
 pub fn case_begin() {
     CASE_STARTED_MS.store(now_ms().max(1), Ordering::SeqCst);
 }
